@@ -59,7 +59,7 @@ FUNCS = {
 }
 
 
-def build_graph(rng, depth=0, outer_pool=None):
+def build_graph(rng, depth=0, outer_pool=None, ancestors=()):
     """-> (Graph, n_inputs). Pool entries: (tracer, kind) with kind in {'arr', 'num', 'pair'}."""
     import einx._src.tracer as tracer
 
@@ -143,7 +143,7 @@ def build_graph(rng, depth=0, outer_pool=None):
                 feats.add("kwargs")
         elif r < 0.92 and depth < 2:
             # nested graph passed to a higher-order constant; closes over outer values
-            inner, _, ifeats = build_graph(rng, depth + 1, outer_pool=[p for p in pool if p[1] == "arr" and id(p[0]) not in dead])
+            inner, _, ifeats = build_graph(rng, depth + 1, outer_pool=[p for p in pool if p[1] == "arr" and id(p[0]) not in dead], ancestors=tuple(ancestors) + (tuple(inputs),))
             ho = C(rng.choice(["apply", "twice"]))
             pool.append((P.call(ho, [inner, a]), "arr"))
             feats.add("nested-graph")
@@ -157,6 +157,14 @@ def build_graph(rng, depth=0, outer_pool=None):
             feats.add("import")
     # 'arr0' (slices) are arrays of another length: usable as outputs only
     outs = [t for t, k in pool if id(t) not in dead and k in ("arr", "num", "arr0", "pair") and not any(t is i for i in inputs)]
+    if depth >= 2:
+        # a value built here that does not depend on this graph's own input but on the inputs of two different enclosing graphs
+        own_ids = {id(t) for t, _ in pool} - {id(t) for t, _ in (outer_pool or [])}
+        for t, _ in pool:
+            if id(t) in own_ids and t.origin is not None and not tracer.depends_on(t, inputs[0]):
+                levels = sum(1 for anc in ancestors if any(tracer.depends_on(t, a) for a in anc))
+                if levels >= 2:
+                    feats.add("value-spanning-two-outer-scopes")
     if depth > 0:
         # a nested function returns one array that depends on its own input (see DESIGN.md on defect #15)
         cands = [t for t, k in pool if k == "arr" and id(t) not in dead and tracer.depends_on(t, inputs[0])]
@@ -203,7 +211,7 @@ def run_synthetic(spec, out, rng):
         out.count("synthetic_graphs")
         for f in feats:
             out.count(f"synfeat:{f}")
-        risk = "nested-graph-outer-output" if "nested-graph-outer-output" in feats else ("nested-graph" if "nested-graph" in feats else "")
+        risk = "nested-graph-outer-output" if "nested-graph-outer-output" in feats else ("nested-graph-value-spanning-two-outer-scopes" if "value-spanning-two-outer-scopes" in feats else ("nested-graph" if "nested-graph" in feats else ""))
         try:
             fn, text = compile_(graph, return_code=True)
         except RecursionError as e:
